@@ -23,7 +23,8 @@ RULE = ("angles: every k*pi/2^m for m<=10, |k|<=2^(m+2) (negative, beyond 2 pi, 
         "{0, 2 pi} +- {1e-17,...,1e-3}; uniform grid of 2^12 (quick) / 2^16 (thorough) points on [-4 pi, 4 pi]; x tolerances "
         "1e-1..1e-9; oracle: terminates, 0<=n<=255 and 0<=d<=255 for every step, exact rational sum * pi within tol of the angle "
         "modulo 2 pi; SDK sublattice: q.rot_X/Y/Z(angle=) emits exactly those steps and the state-vector effect is the rotation to "
-        "that accuracy; distinct = distinct (angle, tol); non-trivial = angle not a multiple of 2 pi; the seeded supplementary "
+        "that accuracy; sequences of 2-3 angle rotations on one connection (5 bases x 11 offsets from 0 to 1e-2 in both orders, the same "
+        "angle on two axes, a +2 pi and a negated repeat): each rotation within 1e-4 of its own angle; distinct = distinct (angle, tol); non-trivial = angle not a multiple of 2 pi; the seeded supplementary "
         "samples (VERIF_SEED) are counted separately in coverage.supplementary_samples")
 ASSUMPTIONS = ["finite lattice of doubles, not all doubles", "float slack 1e-12 on the modular distance"]
 
@@ -167,22 +168,84 @@ def shard_sdk(shard):
     return part
 
 
+PAIR_BASES = [1.0, 0.3, math.pi / 8, 0.0, -0.7]
+PAIR_DELTAS = [0.0, 1e-5, -1e-5, 2e-4, -2e-4, 4e-4, -4e-4, 1e-3, -1e-3, 1e-2, -1e-2]
+
+
+def _pair_histories(axis):
+    """ordered pairs of rotations issued on ONE connection: near-coincident angles in both orders, the same angle on two axes"""
+    other = {"x": "z", "y": "x", "z": "y"}[axis]
+    for b in PAIR_BASES:
+        for dl in PAIR_DELTAS:
+            yield [(axis, b), (axis, b + dl)]
+            if dl:
+                yield [(axis, b + dl), (axis, b)]
+        yield [(axis, b), (other, b)]
+        yield [(axis, b), (axis, b + TWO_PI), (axis, -b)]
+
+
+def shard_sdk_history(shard):
+    """Several angle rotations on one connection (one builder): every rotation must approximate ITS OWN angle, whatever was
+    requested before it (a decomposition remembered from an earlier, nearby angle is not within tolerance of this one)."""
+    from netqasm.sdk.qubit import Qubit
+    _, axis = shard
+    part = new_part()
+    n = 0
+    for hist in _pair_histories(axis):
+        n += 1
+        part["evals"] += 1
+        part["distinct"] += 1
+        case = {"sdk_history": [[ax, a] for ax, a in hist]}
+        world.reset()
+        ctrl, conn = simctl.make_pair()
+        try:
+            qs = []
+            for ax, a in hist:
+                q = Qubit(conn)
+                q.H()
+                getattr(q, f"rot_{ax.upper()}")(angle=a)
+                qs.append(q)
+            conn.flush()
+        except Exception as exc:
+            _guard(exc)
+            add_violation(part, "sdk-history-raises", f"{case['sdk_history']} raised {type(exc).__name__}: {str(exc)[:150]}", case)
+            continue
+        ex = ctrl.executor
+        for i, ((ax, a), q) in enumerate(zip(hist, qs)):
+            phys = ex._qubit_unit_modules[conn.app_id][q.qubit_id]
+            emitted = [(t[2], t[3]) for t in ex.gate_trace if t[0] == f"rot_{ax}" and t[1] == q.qubit_id]
+            total = sum((Fraction(int(nn), 2 ** int(dd)) for nn, dd in emitted), Fraction(0))
+            err = moddist(float(total) * math.pi, a)
+            want = qsim.rot(ax, a) @ (qsim.H @ np.array([1, 0], dtype=complex))
+            rho = ex.qs.reduced([phys])
+            fid = math.sqrt(max(0.0, float(np.real(np.vdot(want, rho @ want)))))
+            if err > 1e-4 + 1e-12 or (fid < math.cos(1e-4 / 2) - 1e-9 and fid < 1 - 1e-8):
+                add_violation(part, "sdk-history", f"rotation #{i} of a sequence on one connection is not within the default tolerance "
+                              f"of its own angle", case, {"index": i, "angle": a, "emitted": emitted, "error": err, "fidelity": fid})
+                break
+    count(part, "sdk-histories", n)
+    return part
+
+
 def _dispatch(shard):
-    return {"lat": shard_lattice, "sup": shard_supplementary, "sdk": shard_sdk}[shard[0]](shard)
+    return {"lat": shard_lattice, "sup": shard_supplementary, "sdk": shard_sdk, "sdkh": shard_sdk_history}[shard[0]](shard)
 
 
 def run(ctx):
     n = 64
-    shards: List[Any] = [("lat", ctx.tier, i, n) for i in range(n)] + [("sdk", a) for a in "xyz"] + [("sup", ctx.seed)]
+    shards: List[Any] = [("lat", ctx.tier, i, n) for i in range(n)] + [("sdk", a) for a in "xyz"] + [("sdkh", a) for a in "xyz"] + [("sup", ctx.seed)]
     ctx.pmap(_dispatch, shards)
     ctx.require("lattice-angles", 8000)
     ctx.require("sdk-angles", 100)
+    ctx.require("sdk-histories", 300)
     ctx.extra["supplementary_samples"] = ctx.counter("supplementary-samples")
     ctx.extra["tolerances"] = TOLS
 
 
 def replay(case, part):
-    if "sdk" in case:
+    if "sdk_history" in case:
+        part["violations"].extend(shard_sdk_history(("sdkh", case["sdk_history"][0][0]))["violations"])
+    elif "sdk" in case:
         part["violations"].extend(shard_sdk(("sdk", case["sdk"][-1].lower()))["violations"])
     elif "angle" in case:
         check_angle(float.fromhex(case["angle_hex"]) if "angle_hex" in case else case["angle"], case["tol"], part)
